@@ -176,9 +176,10 @@ const (
 )
 
 type txShape struct {
-	Kind string   `json:"kind"`
-	S    who      `json:"s"`           // sender
-	R    *spelled `json:"r,omitempty"` // the other account, where the kind has one
+	Kind    string   `json:"kind"`
+	S       who      `json:"s"`                  // sender
+	R       *spelled `json:"r,omitempty"`        // the other account, where the kind has one
+	EvmUser bool     `json:"evm_user,omitempty"` // evm kinds: executor name "user.evm.vf" (a user-named evm contract) instead of "evm"
 }
 
 func (sh txShape) hasR() bool { return sh.Kind != kToExec && sh.Kind != kNone }
@@ -235,11 +236,11 @@ func (w *world) build(sh txShape) *types.Transaction {
 			tx.To = r
 		}
 	case kEvmCall:
-		tx.Execer = []byte(w.execer("evm"))
+		tx.Execer = []byte(w.execer(evmName(sh)))
 		tx.Payload = types.Encode(&types.EVMContractAction4Chain33{GasLimit: 100000, GasPrice: 1, Para: []byte("calldata-not-20-bytes-long"), ContractAddr: r})
 		tx.To = address.ExecAddress(string(tx.Execer))
 	case kEvmPara:
-		tx.Execer = []byte(w.execer("evm"))
+		tx.Execer = []byte(w.execer(evmName(sh)))
 		tx.Payload = types.Encode(&types.EVMContractAction4Chain33{Amount: 1, GasLimit: 100000, GasPrice: 1, Para: sh.R.raw20(), ContractAddr: address.ExecAddress(string(tx.Execer))})
 		tx.To = address.ExecAddress(string(tx.Execer))
 	case kProxy:
@@ -258,6 +259,13 @@ func (w *world) build(sh txShape) *types.Transaction {
 		panic("unknown kind " + sh.Kind)
 	}
 	return tx
+}
+
+func evmName(sh txShape) string {
+	if sh.EvmUser {
+		return "user.evm.vf"
+	}
+	return "evm"
 }
 
 func (w *world) sign(tx *types.Transaction, sh txShape) {
@@ -443,7 +451,7 @@ var nodeCfgs = []nodeCfg{
 	{ForkH: 1, DisableExecCheck: false, Extra: 0},   // pool height above the fork, exec check on
 	{ForkH: 1000, DisableExecCheck: true, Extra: 0}, // pool height far below the fork
 	{ForkH: 15, DisableExecCheck: true, Extra: 2},   // pool height 14: the next block is the first one under the rule
-	{ForkH: 13, DisableExecCheck: false, Extra: 1},  // pool height 13 = fork height
+	{ForkH: 500, DisableExecCheck: false, Extra: 1}, // pool height below the fork, exec check on
 }
 
 var nodes = map[string][]*node{}
@@ -487,6 +495,9 @@ func genSpelling(t *rapid.T, w who, label string) spelled {
 
 func genShape(t *rapid.T, kinds []string, blocked []spelled, aim bool) txShape {
 	sh := txShape{Kind: rapid.SampledFrom(kinds).Draw(t, "kind"), S: genWho(t, "s")}
+	if sh.Kind == kEvmCall || sh.Kind == kEvmPara {
+		sh.EvmUser = rapid.IntRange(0, 3).Draw(t, "evmUser") == 0
+	}
 	proxy := sh.Kind == kProxy // signed with the secp256k1eth key: the sender is always the eth-form account
 	sh.S.Eth = sh.S.Eth || proxy
 	var hit *who
